@@ -46,7 +46,9 @@ EXEMPT_PREFIX = ("/proc/self/",)
 
 LONG = "L" * 300
 UNI = "\u00fcn\u00ef\u20acode\u2713"
-COMPONENTS = ["..", ".", "", "a", LONG, UNI, "C:", "CON", "...", ".. ", "sibling", "out-evil", "abs", "home"]
+# "....\\" / "..../": four dots + a separator of their own (joined with the style's separator this gives `....\\\\` — what a
+# single, non-recursive pass that deletes `../` turns into a fresh `../`)
+COMPONENTS = ["..", ".", "", "a", LONG, UNI, "C:", "CON", "...", ".. ", "sibling", "out-evil", "abs", "home", "....", "....\\", "..../"]
 SEPSTYLES = ["bs", "fs", "mixed", "dbs", "dfs"]
 PREFIXES = ["none", "abs-fs", "abs-bs", "abs-mixed", "unc-bs", "unc-fs", "drive-bs", "drive-fs", "drive-rel", "drive-abs"]
 
@@ -55,7 +57,7 @@ RULE = ("one case = one run of the CLI (`mpq extract`) under strace on an archiv
         "mid-path `..`, sibling/canary targets, absolute path of the sandbox's abs/ dir spelled with /, \\, mixed, UNC-shaped \\\\verif\\scratch\\.. and //.., drive prefixes C:\\ C:/ C: , "
         "`...`, `.. `, `.`, doubled separators, CON, 300-char and unicode components, trailing `..` / `.` / separator; every prefix class again behind 1-2 leading `.` components whose separator is single, "
         "doubled or of the other kind, e.g. `.//<abs>/x`, `.\\\\<abs>\\x`) + seeded random names from the grammar components x separators x prefixes, "
-        "depth 1-6, 0-2 leading `.` components, up to 220 (quick) / 3000 (thorough) names. Each archive is run under every configuration of {--preserve-paths on/off} x {no patch chain: whole archive / names on the "
+        "depth 1-6, 0-2 leading `.` components, up to 250 (quick) / 3000 (thorough) names. Each archive is run under every configuration of {--preserve-paths on/off} x {no patch chain: whole archive / names on the "
         "command line x --threads 1/4 ; patch chain (--patch second archive overriding hostile and benign names and adding its own): whole / explicit}; output dir spelled relative or absolute, "
         "--skip-errors on/off, archive version 1/2 and zlib/none per file drawn from the seed. Oracle: snapshot diff of the whole outer tree + strace write-class calls resolved against the traced cwd; "
         "both must agree. A run is non-trivial iff the tool ran to an exit status and the leading benign files were found byte-identical in out/; distinct = distinct "
@@ -184,10 +186,17 @@ def contained(name, box):
     ordinary byte; leading separators stripped; anchored at out/, cwd/, abs/ or the sandbox root), resolve outside the run's outer directory?"""
     if "\0" in name or "\n" in name or "\r" in name:
         return False
-    if split_comps(name).count("..") > MAXUP:
+    if sum(1 for x in split_comps(name) if x in ("..", "....", "...")) > MAXUP:
         return False
     forms = set()
-    for f in (sys_form(name), name):
+    base_forms = [sys_form(name), name]
+    # a tool that "sanitises" instead of refusing: one or two non-recursive passes deleting `../` (or `..` + any run of separators),
+    # with or without the leading separators / drive prefix gone first
+    for f in list(base_forms):
+        for g in (f, f.lstrip("/"), re.sub(r"^[A-Za-z]:", "", f).lstrip("/")):
+            for one in (g.replace("../", ""), re.sub(r"\.\./+", "", g)):
+                base_forms += [one, one.replace("../", ""), re.sub(r"\.\./+", "", one)]
+    for f in base_forms:
         forms |= {f, f.lstrip("/")}
         g = f
         while g.startswith("./"):
@@ -282,6 +291,13 @@ def core_specs():
     add("none", [".."], "bs")
     add("none", ["."], "bs")
     add("none", ["@"], "bs")
+    # names a delete-`../`-once sanitiser turns into climbing paths
+    for tok, sep in (("....\\", "bs"), ("..../", "fs")):
+        add("none", ["..", tok, tok, "@"], sep)
+        add("none", ["", tok, "@"], sep)
+        add("none", ["..", tok, "sibling", "@"], sep)
+        add("none", [tok, tok, "@"], sep)
+        add("none", ["a", tok, "..", "@"], sep)
     # every prefix class behind 1-2 leading `.` components; the separator after the `.` single, doubled, or the other kind
     def lead(n, lsep, prefix, comps, sep):
         add(prefix, comps, sep)
@@ -335,7 +351,7 @@ def random_spec(rng):
 def plan(tier, seed):
     """Deterministic list of archive plans: each = list of (global index, spec)."""
     thorough = tier == "thorough"
-    total = 3000 if thorough else 220
+    total = 3000 if thorough else 250
     per = 5 if thorough else 3
     rng = random.Random(0xC11 * 1000003 + int(seed))
     specs = core_specs()
